@@ -81,10 +81,13 @@ hvars == <<owner, handles, nexth, log>>
 HInit == owner = [o \in Objects |-> TRUE] /\ handles = {} /\ nexth = 1 /\ log = <<>>
 UseCount(o) == (IF owner[o] THEN 1 ELSE 0) + Cardinality({h \in handles : h.obj = o})
 Alive(o) == UseCount(o) > 0
-WrapHandle(o) ==      \* wrap_shared_ptr: a heap copy of the shared_ptr becomes a MATLAB handle
+\* wrap_shared_ptr: a heap copy of the shared_ptr becomes a MATLAB handle.  With isVirtual the pointer travels as a
+\* shared_ptr<void> that lives only for the duration of the call; the MATLAB constructor up-casts it into the heap
+\* copy it keeps (upcastFromVoid routine).  Either way exactly ONE reference is added.
+WrapHandle(o, virt) ==
   /\ owner[o] /\ Len(log) < MaxSteps
   /\ handles' = handles \cup {[id |-> nexth, obj |-> o]} /\ nexth' = nexth + 1
-  /\ log' = Append(log, [op |-> "wrap", obj |-> o, h |-> nexth, count |-> UseCount(o) + 1])
+  /\ log' = Append(log, [op |-> IF virt THEN "wrapvirtual" ELSE "wrap", obj |-> o, h |-> nexth, count |-> UseCount(o) + 1])
   /\ UNCHANGED owner
 UnwrapHandle(h) ==    \* unwrap_shared_ptr: a temporary copy, same object
   /\ h \in handles /\ Len(log) < MaxSteps
@@ -100,7 +103,7 @@ DropOwner(o) ==       \* the C++ side lets go of its own reference
   /\ owner' = [owner EXCEPT ![o] = FALSE]
   /\ log' = Append(log, [op |-> "drop", obj |-> o, h |-> 0, count |-> UseCount(o) - 1])
   /\ UNCHANGED <<handles, nexth>>
-HNext == (\E o \in Objects : WrapHandle(o) \/ DropOwner(o)) \/ (\E h \in handles : UnwrapHandle(h) \/ Release(h))
+HNext == (\E o \in Objects : (\E virt \in BOOLEAN : WrapHandle(o, virt)) \/ DropOwner(o)) \/ (\E h \in handles : UnwrapHandle(h) \/ Release(h))
 HSpec == HInit /\ [][HNext]_hvars
 \* the object lives exactly as long as a handle (or the C++ owner) exists
 KeptAlive == \A h \in handles : Alive(h.obj)
